@@ -161,6 +161,24 @@ func (m *C07Monitor) AfterTx(c *Chain, ctx sdk.Context, tx sdk.Tx, ok bool) {
 			if rep, err := c.App.ReporterKeeper.Reporters.Get(ctx, addr.Bytes()); err == nil && rep.Jailed {
 				c.Violate("C07", "c07", "report-accepted-from-jailed-reporter", map[string]interface{}{"reporter": x.Creator})
 			}
+			// the accepted report sits in a round that exists and is marked as holding reports (else it is never aggregated)
+			inRound := 0
+			_ = c.App.OracleKeeper.Reports.Walk(ctx, collections.NewSuperPrefixedTripleRange[[]byte, []byte, uint64]([]byte(qid), addr.Bytes()), func(k collections.Triple[[]byte, []byte, uint64], r oracletypes.MicroReport) (bool, error) {
+				if r.BlockNumber != h {
+					return false, nil
+				}
+				inRound++
+				q, err := c.App.OracleKeeper.Query.Get(ctx, collections.Join([]byte(qid), k.K3()))
+				if err != nil || !q.HasRevealedReports {
+					c.Violate("C07", "c07", "accepted-report-stored-under-a-round-that-does-not-exist-or-is-not-marked", map[string]interface{}{"reporter": x.Creator, "meta_id": k.K3(), "round_found": err == nil, "expiry": rel, "deposit": deposit})
+				} else if q.Expiration < h && !deposit {
+					c.Violate("C07", "c07", "accepted-report-stored-in-a-closed-round", map[string]interface{}{"meta_id": k.K3(), "expiration": q.Expiration, "height": h})
+				}
+				return false, nil
+			})
+			if inRound == 0 {
+				c.Violate("C07", "c07", "accepted-report-not-stored", map[string]interface{}{"reporter": x.Creator, "expiry": rel})
+			}
 			cur, err := c.App.OracleKeeper.CurrentQuery(ctx, []byte(qid))
 			if err == nil {
 				stored, err := c.App.OracleKeeper.Reports.Get(ctx, collections.Join3([]byte(qid), addr.Bytes(), cur.Id))
